@@ -51,6 +51,7 @@ Definition ekind_src (e : ekind) : esrc :=
   | EG_EOF => SGo
   | EG_FileClosing => SConst "ErrFileClosing"
   | EG_NegativeOffset => SConst "ErrNegativeOffset"
+  | EG_WriteAtInAppendMode => SConst "ErrWriteAtInAppendMode"
   | EFuel => SModel
   end.
 
@@ -71,7 +72,7 @@ Definition all_ekinds : list ekind :=
    ENotADirectory; EOpNotPermitted; EPermDenied; ETooManySymlinks; EC_FileExists; EC_OpNotPermitted;
    EC_InvalidArgument; EC_NotADirectory; EC_IsADirectory; EC_BadFileDesc; EW_DirNameInvalid; EW_AlreadyExists;
    EW_AccessDenied; EW_NotReparsePoint; EW_IncorrectFunc; EW_InvalidHandle; EW_NotSupported; EG_Closed;
-   EG_Invalid; EG_EOF; EG_FileClosing; EG_NegativeOffset; EFuel].
+   EG_Invalid; EG_EOF; EG_FileClosing; EG_NegativeOffset; EG_WriteAtInAppendMode; EFuel].
 
 Definition all_os : list ostype := [Linux; Windows].
 
